@@ -434,9 +434,16 @@ func (s *Session) writeCompressed(rw io.ReadWriter, p *Proposal) (err error) {
 	var (
 		title    = mime.QEncoding.Encode("utf-8", p.title) // Word-encode the title since this field must be ASCII-only
 		offset   = fmt.Sprintf("%d", p.offset)
-		length   = len(title) + len(offset) + 2
 		checksum int64
 	)
+
+	// The header length is a single byte. Word-encoding can grow a valid non-ASCII
+	// subject beyond that, so shorten the title (it is informational only) until it fits.
+	for r := []rune(p.title); len(title)+len(offset)+2 > 255 && len(r) > 0; {
+		r = r[:len(r)-1]
+		title = mime.QEncoding.Encode("utf-8", string(r))
+	}
+	length := len(title) + len(offset) + 2
 
 	writer.Write([]byte{_CHRSOH, byte(length)})
 	writer.WriteString(title) // Max 80 bytes, min 1 byte
